@@ -242,6 +242,19 @@ void rq_gen_geometry (vf_rng *r, rq_request *q, unsigned profile)
             q->sx = 0; q->sy = (int)vf_range (r, 0, 3);
             return;
         }
+        if (s->tr_class != TR_NONE && s->w > 32767 && vf_chance (r, 3, 4)) {
+            /* a modest scale and a start inside the first 32767 columns: every coordinate the request samples is representable, only the image is too big */
+            static const double scs[] = { 0.5, 1.0, 1.5, 2.0, 3.0, 0.999 };
+            double sc = vf_chance (r, 1, 2) ? VF_PICK (r, scs) : 0.3 + 3.7 * vf_unit (r); int neg = s->tr.matrix[0][0] < 0;
+            int span = (int)(sc * ((q->w > 0 ? q->w : 1) + 8)) + 2, start = (int)vf_range (r, 0, 30000 - span > 0 ? 30000 - span : 0);
+            if (vf_chance (r, 1, 3)) start = (int)vf_range (r, 0, 40);
+            s->tr.matrix[0][0] = (pixman_fixed_t)(sc * 65536) * (neg ? -1 : 1);
+            s->tr.matrix[0][2] = pixman_int_to_fixed (neg ? start + span : start) + (pixman_fixed_t)(vf_next (r) % 65536);
+            s->tr.matrix[1][1] = 65536; s->tr.matrix[1][2] = 0;
+            if (vf_chance (r, 1, 2)) { s->filter = vf_chance (r, 2, 3) ? PIXMAN_FILTER_NEAREST : PIXMAN_FILTER_BILINEAR; s->n_params = 0; }
+            q->sx = (int)vf_range (r, 0, 3); q->sy = 0;
+            return;
+        }
         if (s->tr_class != TR_NONE) {
             double sc = (double)s->w / (q->w > 0 ? q->w : 1) * (0.3 + vf_unit (r));
             s->tr.matrix[0][0] = (pixman_fixed_t)(sc * 65536) * (s->tr.matrix[0][0] < 0 ? -1 : 1);
